@@ -103,6 +103,64 @@ func c08Targets(s *simSys) (edge []string, all []string) {
 	return
 }
 
+// c08ForgeRecovery sets up what an attacker with write access to the bucket can arrange around a restart: the published
+// checkpoint is rolled back to an older genuinely signed one (so that the server enters its crash-recovery branch)
+// and a staging bundle is planted under the name the recovery will look for. The bundle holds a right-edge level-0
+// hash tile that is WIDER than the committed tree's edge (the committed hashes followed by forged ones) and a data
+// tile of the same width whose extra entries really hash to the forged hashes.
+func c08ForgeRecovery(t *rapid.T, s *simSys) (desc string, ok bool) {
+	lc, err := s.lockNow()
+	if err != nil || lc.Size == 0 || lc.Size%256 == 255 {
+		return "", false
+	}
+	w := s.w
+	w.mu.Lock()
+	defer w.mu.Unlock()
+	// an older published checkpoint
+	var older []byte
+	for _, h := range w.hist["checkpoint"] {
+		if c, err := simOpenCheckpoint(simLogName, &s.key.PublicKey, h); err == nil && c.Size < lc.Size {
+			older = h
+		}
+	}
+	if older == nil {
+		return "", false
+	}
+	n, wd := lc.Size, int(lc.Size%256)
+	tileN := n / 256
+	extra := rapid.IntRange(1, min(3, 255-wd)).Draw(t, "forgedExtra")
+	var entries []*vfref.Entry
+	for i := tileN * 256; i < n; i++ {
+		entries = append(entries, s.model[i])
+	}
+	hashes, okh := s.modelTree.TileHashes(0, tileN, wd)
+	if !okh {
+		return "", false
+	}
+	hashes = bytes.Clone(hashes)
+	for k := 0; k < extra; k++ {
+		e := &vfref.Entry{Cert: []byte(fmt.Sprintf("forged entry %d", k)), Index: n + int64(k), Timestamp: lc.Time}
+		entries = append(entries, e)
+		h := vfref.LeafHash(e.MerkleTreeLeaf())
+		hashes = append(hashes, h[:]...)
+	}
+	var gz bytes.Buffer
+	gw := gzip.NewWriter(&gz)
+	gw.Write(vfref.DataTile(entries))
+	gw.Close()
+	hashPath := vfref.TilePath("", 0, tileN, wd+extra)
+	dataPath := strings.Replace(hashPath, "tile/0/", "tile/data/", 1)
+	ms := []c08Member{
+		{dataPath, `{"Compressed":true,"Immutable":true}`, gz.Bytes()},
+		{hashPath, `{"Immutable":true}`, hashes},
+	}
+	key := fmt.Sprintf("staging/%d-%x", lc.Size, lc.Root[:])
+	w.objs[key] = c08Pack(ms)
+	w.objs["checkpoint"] = older
+	w.tampered = true
+	return fmt.Sprintf("forge-recovery: checkpoint rolled back below %d, planted %s with %s and %s (%d forged entries)", lc.Size, key, hashPath, dataPath, extra), true
+}
+
 // c08Tamper applies one generated modification to storage and describes it.
 func c08Tamper(t *rapid.T, s *simSys) (desc string, onEdge bool) {
 	edge, all := c08Targets(s)
@@ -235,6 +293,13 @@ func TestVerifC08Tamper(t *testing.T) {
 		descf("honest prefix %v", sc)
 		edgeHit := false
 		tamper := func(where string) {
+			if rapid.IntRange(0, 5).Draw(t, "forgeRecovery") == 3 {
+				if d, ok := c08ForgeRecovery(t, s); ok {
+					edgeHit = true
+					descf("tamper (%s): %s", where, d)
+					return
+				}
+			}
 			for k := rapid.IntRange(1, 4).Draw(t, "tampers"); k > 0; k-- {
 				d, e := c08Tamper(t, s)
 				edgeHit = edgeHit || e
